@@ -328,12 +328,23 @@ class GeffMetadata(BaseModel):
 
         Returns:
             GeffMetadata: The GeffMetadata object
+
+        Raises:
+            FileNotFoundError: If the path does not exist or there is no zarr group in the store
+            ValueError: If the group has no (valid) geff metadata
         """
 
         if isinstance(store, zarr.Group):
             raise TypeError("Unsupported type for store_like: should be a `zarr.storage.StoreLike")
 
-        group = zarr.open_group(store)
+        # Reading must never modify the store: open read-only (zarr's default mode "a"
+        # creates a group when there is none, e.g. a directory at a path that does not exist)
+        try:
+            group = zarr.open_group(store, mode="r")
+        except FileNotFoundError as e:
+            # raised for a path that does not exist and (as zarr's GroupNotFoundError) for a
+            # store that does not hold a group
+            raise FileNotFoundError(f"No zarr group found in {store}: {e}") from e
 
         # Check if geff_version exists in zattrs
         if "geff" not in group.attrs:
